@@ -106,9 +106,12 @@ def findings():
         X = inv(ops.Transpose(ops.Identity((3, 3), np.float64)), cola.linalg.GMRES(max_iters=4))
         B = np.array([[1., 2.], [0., 1.], [3., 0.]])
         Y = np.asarray(X @ B)
-        return not np.allclose(Y, B), Y.tolist()
+        # second witness (still failing after the first repair of the padding logic): a complex multiple of the identity, max_iters >> n
+        b = np.array([2 - 1j, -1 - 2j, -3 - 1j, -2j, -1 + 2j])
+        y = np.asarray(inv(ops.Dense(4 * np.eye(5, dtype=complex)), cola.linalg.GMRES(max_iters=50)) @ b)
+        return not (np.allclose(Y, B) and np.allclose(y, b / 4)), [Y.tolist(), y.tolist()]
     probe("inv_gmres_padding_singular", "inv(A, GMRES(max_iters > n)) @ b (in particular the default max_iters=1000) raises LinAlgError 'Singular matrix' once the Krylov space is exhausted "
-          "(C13 flag arnoldi_padding seen through inv/solve)", gmres_padding, "inv(Transpose(Identity(3)), GMRES(max_iters=4)) @ [[1,2],[0,1],[3,0]]")
+          "(C13 flag arnoldi_padding seen through inv/solve)", gmres_padding, "inv(Transpose(Identity(3)), GMRES(max_iters=4)) @ [[1,2],[0,1],[3,0]]; inv(Dense(4*eye(5,complex)), GMRES(max_iters=50)) @ [2-1j,-1-2j,-3-1j,-2j,-1+2j]")
 
     def gmres_breakdown():
         T3 = np.array([[2., 1., 0.], [1., 3., 1.], [0., 1., 4.]])
